@@ -45,6 +45,15 @@ def run(chk, replay=None):
             for kind, where, core in si:
                 tags = ['leak', kind]
                 if info['kind'] == 'grammar_collide': tags.append('collide')
+                if not getattr(chk, '_shrunk', False) and kind != 'ip':
+                    chk._shrunk = True
+                    from vlib import shrink
+                    def fails(b, cfg=cfg, core=core):
+                        o = shrink.impl_line(cfg, b)
+                        return isinstance(o, bytes) and core.encode() in o and core.encode() in b
+                    sb = shrink.shrink_line(l, fails)
+                    chk.violate('planted %s literal survives (shrunk witness)' % kind, {'cfg': cfg.describe(), 'literal': core, 'shrunk_input': sb.decode('utf-8', 'replace'),
+                                'shrunk_output': str(shrink.impl_line(cfg, sb))[:800]}, tags=tags)
                 chk.violate('planted %s literal survives' % kind, {'cfg': cfg.describe(), 'where': where, 'literal': core, 'input': l.decode('utf-8', 'replace'),
                                                                     'output': io.decode('utf-8', 'replace')}, tags=tags)
         chk.streams.append({'stream': 'survivor projection model vs implementation', 'cfg': cfg.describe(), 'cases': len(lines)})
